@@ -24,3 +24,18 @@ Theorem c11_overwrite_atomic :
   forall k, let r := result (crash_at s0 (overwrite_flow ++ close_flow) k) in r = Some Orig \/ r = Some New.
 Proof. exact overwrite_atomic. Qed.
 Print Assumptions c11_overwrite_atomic.
+
+(* BEGIN PINS (tools/repin.py) *)
+From WTP Require Import Gen.GenPins.
+Module Pins.
+Import String.
+(* The models of this property were transcribed from: core.py:Wtp.backup_db, core.py:Wtp.create_db.
+   Gen/GenPins.v holds the digests of these functions in the current source (translate/pins.py: syntax tree without
+   docstrings, comments and layout).  A different digest means that the model is no longer known to describe the
+   code; the check then reports the broken tie and looks for a failing input. *)
+Theorem c11_models_describe_the_current_source :
+  (pin_backup_db, pin_create_db) = ("1b12ab8e0f25a055", "4de9491ebc932266")%string.
+Proof. reflexivity. Qed.
+Print Assumptions c11_models_describe_the_current_source.
+End Pins.
+(* END PINS *)
